@@ -6,8 +6,8 @@ EXTENDS FmtGrammar, Json
 CONSTANTS Tier, EmitCases
 VARIABLES comp, lit
 
-ArgChoices   == IF Tier = "quick" THEN {<<>>, <<"1">>, <<"a">>, <<"_", "0">>}
-                ELSE {<<>>, <<"0">>, <<"1">>, <<"a">>, <<"_", "0">>}
+ArgChoices   == IF Tier = "quick" THEN {<<>>, <<"1">>, <<"a">>, <<"_", "0">>, <<"_", "0", "1">>}
+                ELSE {<<>>, <<"0">>, <<"1">>, <<"a">>, <<"_", "0">>, <<"_", "0", "1">>}
 FillAlign    == IF Tier = "quick" THEN {<<>>, <<"<">>, <<"*", ">">>}
                 ELSE {<<>>, <<"<">>, <<"^">>, <<">">>, <<"*", "<">>, <<"0", ">">>, <<"}", "^">>}
 SignChoices  == IF Tier = "quick" THEN {<<>>, <<"+">>} ELSE {<<>>, <<"+">>, <<"-">>}
